@@ -377,6 +377,16 @@ pub fn plan(property: &str, tier: Tier) -> Option<Plan>
                 c.final_gc = true;
                 items.push(item(c, "despawn-rc", &format!("N={n}")));
             }
+            // deeper recursion shapes over plain runs only (three systems running themselves and each other): the replay
+            // bookkeeping of nested frames
+            let ns: &[u32] = if q { &[6, 7] } else { &[7, 8] };
+            for &n in ns
+            {
+                let mut c = core_cfg(format!("C02/runs-only/N{n}"), p3.clone(), &[], n, 0, false);
+                c.script = Arc::new(|_i: &DynInfo| vec![Op::Run(0), Op::Run(1), Op::Run(2)]);
+                c.sym_actors = vec![vec![1, 2]];
+                items.push(item(c, "runs-only", &format!("N={n}")));
+            }
             reports = vec!["C02"];
             rule = "lazily enumerated programs over {Run, SysEvent, DespawnSys}x3 actors + Broadcast with preset \
                 listeners; non-trivial = at least one system run; distinct = distinct canonical trace".into();
@@ -954,6 +964,40 @@ pub fn plan(property: &str, tier: Tier) -> Option<Plan>
             }
             if !is3
             {
+                // one-off reactors (their wrapper runs the system and the event cleanup by itself): what they queue must
+                // not see the event they reacted to
+                let ns: &[u32] = if q { &[6] } else { &[6, 7] };
+                for &n in ns
+                {
+                    let mut c = Config::base(&format!("C04/once/N{n}"));
+                    c.actors = vec![Variant::Plain, Variant::Plain, Variant::Plain];
+                    c.n_ents = 1;
+                    c.setup = vec![Op::Register(1, Bundle::one(Trig::ResMut), Mode::Persistent)];
+                    c.top = Arc::new(|i: &DynInfo| {
+                        let mut v = Vec::new();
+                        if i.n_actors < 5
+                        {
+                            v.push(Op::Once(Variant::Plain, Bundle::one(Trig::Broadcast(Ev::A))));
+                            v.push(Op::Once(Variant::Plain, Bundle::one(Trig::EntityEvent(Ev::A, 0))));
+                            v.push(Op::Once(Variant::NoTake, Bundle::one(Trig::Broadcast(Ev::B))));
+                        }
+                        v.push(Op::Broadcast(Ev::A));
+                        v.push(Op::Broadcast(Ev::B));
+                        v.push(Op::EntityEvent(Ev::A, 0));
+                        for a in i.ready_actors() { if a >= 3 { v.push(Op::SysEvent(a)); } }
+                        v
+                    });
+                    c.script = Arc::new(|_i: &DynInfo| vec![Op::Run(2), Op::ResMutate(How::GetMut), Op::Broadcast(Ev::A)]);
+                    c.max_top = 4;
+                    c.budget = n;
+                    c.max_per_run = 2;
+                    c.max_runs = 400;
+                    c.sym_actors = vec![];
+                    items.push(item(c, "once", &format!("N={n}")));
+                }
+            }
+            if !is3
+            {
                 // reactors queuing through `DeferredWorld::commands()`: their commands sit on the world's own queue and
                 // run at the first flush after the body - the release of the event data by the last reader, or the
                 // runner's next poll - where nothing may still read the event. Only reader visibility is judged here.
@@ -1202,6 +1246,9 @@ pub fn plan(property: &str, tier: Tier) -> Option<Plan>
                     vec![Op::Insert(Comp::A, 0, 0), Op::Insert(Comp::A, 1, 0), Op::Mutate(Comp::A, 0, How::GetMut), Op::Mutate(Comp::B, 0, How::GetMut)]),
                 ("resource-entity", vec![Trig::ResMut, Trig::EntityMutation(Comp::A, 0), Trig::EntityMutation(Comp::A, 1), Trig::EntityEvent(Ev::A, 1)],
                     vec![Op::ResMutate(How::GetMut), Op::Mutate(Comp::A, 0, How::GetMut), Op::Mutate(Comp::A, 1, How::GetMut), Op::EntityEvent(Ev::A, 1), Op::EntityEvent(Ev::B, 1)]),
+                // polled triggers: type-wide and entity-scoped removal reactors share one removal tracker per component type
+                ("removals", vec![Trig::Removal(Comp::A), Trig::EntityRemoval(Comp::A, 0), Trig::EntityRemoval(Comp::A, 1), Trig::Removal(Comp::B)],
+                    vec![Op::RemoveComp(Comp::A, 0), Op::RemoveComp(Comp::A, 1), Op::Insert(Comp::A, 0, 1), Op::Poll]),
             ];
             for (gname, trigs, fires) in groups
             {
@@ -1213,6 +1260,13 @@ pub fn plan(property: &str, tier: Tier) -> Option<Plan>
                     c.actors = vec![Variant::Plain, Variant::Plain];
                     c.n_ents = 2;
                     c.setup = vec![Op::Insert(Comp::A, 0, 0), Op::Insert(Comp::A, 1, 0), Op::Insert(Comp::B, 0, 0)];
+                    if gname == "removals"
+                    {
+                        // present from the start: an entity-scoped removal reactor that must keep working whatever
+                        // happens to the type-wide ones, and a revokable type-wide one (token 0)
+                        c.setup.push(Op::Register(0, Bundle::one(Trig::EntityRemoval(Comp::A, 0)), Mode::Persistent));
+                        c.setup.push(Op::RegisterNew(Variant::Plain, Bundle::one(Trig::Removal(Comp::A)), Mode::Revokable));
+                    }
                     let trigs2 = trigs.clone();
                     let fires2 = fires.clone();
                     let bundles: Vec<Bundle> = if is1
@@ -1264,6 +1318,8 @@ pub fn plan(property: &str, tier: Tier) -> Option<Plan>
                     c.max_runs = 200;
                     items.push(item(c, &format!("hist-{gname}"), &format!("D={d}")));
                 }
+                // (polled triggers start no tree: only the top-level histories make sense for them)
+                if gname == "removals" { continue; }
                 // fires issued through the World-level API
                 if is1
                 {
@@ -1377,7 +1433,9 @@ pub fn plan(property: &str, tier: Tier) -> Option<Plan>
                     items.push(item(c, "ewr", &format!("D={d}")));
                 }
             }
-            reports = vec![if is1 { "C01" } else { "C06" }];
+            // (a polled reaction that a live, untouched registration never gets is a skipped registration (C01) / a
+            // registration disturbed by somebody else's revocation (C06) as much as a missed removal (C08))
+            reports = vec![if is1 { "C01" } else { "C06" }, "C08"];
             rule = "histories of register (new reactor in each mode / existing reactor) / revoke / fire / despawn over \
                 trigger groups that share keys (events; component tables; resource + entity-scoped), at top level (depth \
                 D) and from inside reactor bodies while a dispatch is in flight (budget N); every fire must reach \
